@@ -116,7 +116,7 @@ def find_vars(f):
     return out
 
 
-def short_buffer_reads_on(repo, f, n, X, want, reads, read_nodes, tn):
+def short_buffer_reads_on(repo, f, n, X, want, reads, read_nodes, tn, proper_only=False):
     g = f.cfg
     K = len(want)
     loops = [w for w in walk_own(f.node) if isinstance(w, ast.While) and any(any(a is w for a in f.module.ancestors(r)) for r in reads)]
@@ -142,6 +142,16 @@ def short_buffer_reads_on(repo, f, n, X, want, reads, read_nodes, tn):
     in_loop = set(x.id for x in g.nodes if x.ast is not None and (x.ast is W or any(a is W for a in f.module.ancestors(x.ast))))
     in_loop.add(head.id)
     shorts = set(want[:i] for i in range(K)) | set((want[:i] + b"a")[:K - 1] for i in range(K)) | {b""}
+    if proper_only:
+        # a prefix test (`startswith`): a short buffer that already differs from the constant is decided for good; only proper
+        # prefixes of the constant are open -- the empty one unless a read that returned nothing was turned away before the loop
+        shorts = set(want[:i] for i in range(K))
+        for t in g.tests():
+            if isinstance(t.ast, ast.Name) and g.dominates(t, head, follow_exc=False) and \
+                    all(isinstance(x.ast, ast.Assign) and any(is_read_call(repo, f, y) for y in ast.walk(x.ast.value)) for x in stores_to_name(f, t.ast.id)):
+                r = g.reachable([(t, "false")], follow_exc=False)
+                if head not in r and g.exit not in r:
+                    shorts.discard(b"")
     for s in sorted(shorts):
         ex = Explorer(f)
         try:
@@ -207,6 +217,17 @@ def r1(ctx):
                 ctx.check("C06.R1", bad is None, key(f, "stale-search|" + norm(c)), site(f, c),
                           "after reading more data the delimiter is searched in a stale copy `%s` (not recomputed from the accumulator): a delimiter that arrives in a later read is never found" % D,
                           "receiver refreshed after every read", path=bad and g.fmt_path(bad))
+        # prefix tests on a buffer: `X.startswith(CONST)` is a len(CONST)-byte comparison as well
+        for n in walk_own(f.node):
+            if isinstance(n, ast.Call) and isinstance(n.func, ast.Attribute) and n.func.attr == "startswith" and len(n.args) == 1 and isinstance(const(n.args[0], NO), bytes) and len(const(n.args[0])) > 1 \
+                    and isinstance(n.func.value, ast.Name) and any(isinstance(x.ast, ast.Assign) and any(isinstance(y, ast.Call) and isinstance(y.func, ast.Attribute) and y.func.attr == "getvalue" or is_read_call(repo, f, y)
+                                                                                                         for y in ast.walk(x.ast.value)) for x in stores_to_name(f, n.func.value.id)):
+                n_cmp += 1
+                tn_ = nodes_with(f, n)
+                okk = short_buffer_reads_on(repo, f, n, n.func.value.id, const(n.args[0]), reads, read_nodes, tn_, proper_only=True)
+                ctx.check("C06.R1", okk, key(f, "split-sensitive-prefix-test|" + norm(n)), site(f, n),
+                          "`%s` is decided on whatever the last read returned: when the %d bytes are split across two reads (the buffer holds only %r) the test fails although the stream continues with the rest" % (
+                              norm(n), len(const(n.args[0])), const(n.args[0])[:1]), "a proper prefix of the constant reads on before the test")
         # k-byte comparisons
         for n in walk_own(f.node):
             c = compare(n) if isinstance(n, ast.Compare) else None
@@ -338,6 +359,12 @@ def r23(ctx):
                         n_pairs += 1
                 else:
                     mates = [p for p in pre if (p["base"], p["off"]) == (b, c)]
+                    if not mates and b is None:
+                        # the dropped prefix was looked at as a whole: `X.startswith(CONST)` with len(CONST) == offset
+                        for cc in walk_own(f.node):
+                            if isinstance(cc, ast.Call) and isinstance(cc.func, ast.Attribute) and cc.func.attr == "startswith" and len(cc.args) == 1 and isinstance(const(cc.args[0], NO), (bytes, str)) \
+                                    and len(const(cc.args[0])) == c and canon_recv(f, cc.func.value) == recv:
+                                mates = [{"node": cc}]
                     ctx.check("C06.R3", bool(mates), key(f, "unpaired-suffix|" + norm(s["node"])), site(f, s["node"]),
                               "`%s` drops the first %s bytes of the buffer but no `%s[:%s]` takes them" % (norm(s["node"]), norm(s["node"].slice.lower), recv, norm(s["node"].slice.lower)),
                               "suffix has matching prefix")
